@@ -9,6 +9,7 @@ import (
 	"github.com/btcsuite/btcd/txscript"
 	"github.com/btcsuite/btcd/wire"
 	"github.com/btcsuite/btcwallet/waddrmgr"
+	"github.com/btcsuite/btcwallet/wallet"
 	"github.com/btcsuite/btcwallet/walletdb"
 	"github.com/btcsuite/btcwallet/wtxmgr"
 
@@ -81,6 +82,10 @@ func replayChainSync(idx int, line []byte, prop string, seed int, root string, r
 		}
 		// C02 (wallet-level pass) owns the status of transactions across reorgs; tip and hashes are C15's
 		if prop == "C02" && class != "tx" {
+			return
+		}
+		// C13 (wallet-level pass) owns the listing by range; C15 and C02 do not report it
+		if (prop == "C13") != (class == "history") {
 			return
 		}
 		sig := fmt.Sprintf("chainsync:%s:%s", class, last)
@@ -362,6 +367,58 @@ func (w *csWorld) check(exp *csObs) (int, [][4]interface{}) {
 	})
 	if err != nil {
 		add("query", "view", err.Error(), nil)
+	}
+	// C13 (wallet-level pass): the listing by range, in both directions, shows every transaction the model
+	// knows exactly once - under the best-chain block that confirms it, or as unconfirmed - and no other
+	for dir, rng := range [][2]int32{{0, -1}, {-1, 0}} {
+		name := []string{"GetTransactions(0..unmined)", "GetTransactions(unmined..0)"}[dir]
+		res, err := e.w.GetTransactions(wallet.NewBlockIdentifierFromHeight(rng[0]), wallet.NewBlockIdentifierFromHeight(rng[1]), "", nil)
+		n++
+		if err != nil {
+			add("history", name, err.Error(), "ok")
+			continue
+		}
+		where := map[chainhash.Hash][]string{}
+		last := int32(-2)
+		for bi := range res.MinedTransactions {
+			b := &res.MinedTransactions[bi]
+			if bi > 0 && ((dir == 0 && b.Height <= last) || (dir == 1 && b.Height >= last)) {
+				add("history", name+": block order", fmt.Sprint(last, " then ", b.Height), "monotone")
+			}
+			last = b.Height
+			on := "NOT on the best chain"
+			if cb := e.chain.At(b.Height); cb != nil && b.Hash != nil && cb.Hash == *b.Hash {
+				on = "on the best chain"
+			}
+			for ti := range b.Transactions {
+				h := *b.Transactions[ti].Hash
+				where[h] = append(where[h], fmt.Sprintf("confirmed in block %d %v (%s)", b.Height, b.Hash, on))
+			}
+		}
+		for ti := range res.UnminedTransactions {
+			h := *res.UnminedTransactions[ti].Hash
+			where[h] = append(where[h], "unconfirmed")
+		}
+		for t, wc := range exp.WConf {
+			tx := w.txs[t+1]
+			if tx == nil {
+				continue
+			}
+			want := "[]"
+			switch {
+			case wc == 0:
+				want = "[unconfirmed]"
+			case wc > len(exp.Chain):
+				continue
+			case wc > 0:
+				b := w.blockOf[exp.Chain[wc-1]]
+				want = fmt.Sprintf("[confirmed in block %d %v (on the best chain)]", b.Height, b.Hash)
+			}
+			n++
+			if got := fmt.Sprint(where[tx.TxHash()]); got != want {
+				add("history", fmt.Sprintf("%s: entries for transaction t%d", name, t+1), got, want)
+			}
+		}
 	}
 	return n, diffs
 }
